@@ -74,7 +74,7 @@ class World:
                        "fault_unwinds_2_levels", "first_touch_at_depth_2", "apply_inside_context",
                        "dimension_mismatch_refused", "post_fault_ops_executed", "reenter_after_exit",
                        "object_is_context_operator_twice", "poke_inside_context", "secularize_inside_context",
-                       "deepcopy_inside_context", "convert_inside_context", "eso_at_inside_context", "context_operator_not_looked_at"]
+                       "deepcopy_inside_context", "convert_inside_context", "eso_at_inside_context", "context_operator_not_looked_at", "propagation_inside_context"]
     required_faults = ["F1_simfault", "F2_refused_write", "F3_dimension_mismatch"]
     components = {
         "real": ["Manager basis stack / registration / flags", "eigenbasis_of.__enter__/__exit__", "BasisManaged",
@@ -114,9 +114,9 @@ class World:
         if not any(c in CONTEXT_CLASSES for c in classes):
             classes.append("SelfAdjoint")
         opkinds = ["enter", "enter", "exit", "exit", "create", "read", "read", "write", "poke", "protect", "unprotect",
-                   "apply", "copy", "secularize", "convert", "fault", "badwrite", "opapply", "opadd", "esoat"]
+                   "apply", "copy", "secularize", "convert", "fault", "badwrite", "opapply", "opadd", "esoat", "libprop"]
         if rng.random() < 0.5:
-            drop = rng.sample(["poke", "protect", "apply", "copy", "secularize", "convert", "fault", "badwrite", "opapply", "opadd", "esoat"],
+            drop = rng.sample(["poke", "protect", "apply", "copy", "secularize", "convert", "fault", "badwrite", "opapply", "opadd", "esoat", "libprop"],
                               rng.randint(1, 5))
             opkinds = [k for k in opkinds if k not in drop]
         faultfree = rng.random() < 0.35
@@ -148,7 +148,7 @@ class World:
             elif k == "copy":
                 ops.append({"op": "copy", "k": rng.randrange(16), "how": rng.choice(["deepcopy", "deepcopy", "scopy"])})
             else:
-                ops.append({"op": k, "k": rng.randrange(16), "s": rng.randrange(16)})
+                ops.append({"op": k, "k": rng.randrange(16), "s": rng.randrange(16), "i": rng.randrange(8), "j": rng.randrange(8)})
         return {"N": N, "complex": cplx, "kf_zone": kf_zone, "ops": ops}
 
     def _gen_create(self, rng, classes, force_ctx=False):
@@ -957,6 +957,76 @@ class Runner:
         n = self.add_obj("Operator", res, {"data": ao.X0["data"] @ bo.X0["data"]}, ao.dim)
         self.ctx.ev(i, "opapply", a, b, n, self.depth)
         self.ctx.cov("opapply", ao.cls, bo.cls, self.depth)
+
+    def op_libprop(self, i, op):
+        """Propagated dynamics are the same inside a context as outside: the library's propagator is run at the
+        current depth on pool objects; the reference is expm of the Liouvillian assembled from the ground truths."""
+        import scipy.linalg
+        qr = self.qr
+        h = self.pick(op["k"], lambda o: o.cls == "Hamiltonian" and o.protected_at is None)
+        r = self.pick(op["s"], lambda o: o.cls in ("RelTensor", "LindbladOps") and o.protected_at is None)
+        st = self.pick(op.get("i", 0), lambda o: o.cls == "RDM" and o.protected_at is None)
+        if h is None or st is None or self.cplx:
+            return
+        ho, so = self.pool[h], self.pool[st]
+        ro = self.pool[r] if (r is not None and op.get("j", 0) % 3 != 0) else None
+        for o in (ho, so, ro):
+            if o is not None and (self.access_expected_refusal(o) or o.dim != ho.dim):
+                return
+        if any(l.get("complexS") for l in self.levels):
+            return
+        N = ho.dim
+        H0 = numpy.real(ho.X0["data"])
+        nt, dt = 3, 0.05        # three points, like every other evolution in the pool
+        I = numpy.eye(N)
+        L = -1j * (numpy.einsum("ac,bd->abcd", H0, I) - numpy.einsum("ac,db->abcd", I, H0))
+        if ro is not None:
+            if ro.cls == "RelTensor":
+                R0 = ro.X0["data"]
+            else:
+                K, Lm, Ld = ro.X0["Km"], ro.X0["Lm"], ro.X0["Ld"]
+                R0 = numpy.zeros((N,) * 4, dtype=complex)
+                for m in range(K.shape[0]):
+                    Kd = K[m].T
+                    R0 += numpy.einsum("ac,db->abcd", K[m], Ld[m]) + numpy.einsum("ac,db->abcd", Lm[m], Kd)
+                    R0 -= numpy.einsum("ac,db->abcd", Kd @ Lm[m], I)
+                    R0 -= numpy.einsum("ac,db->abcd", I, Ld[m] @ K[m])
+            L = L + R0
+        Lm_ = L.reshape(N * N, N * N)
+        for o in (ho, so, ro):
+            if o is not None:
+                self.touch_probe(o)
+        try:
+            axis = qr.TimeAxis(0.0, nt, dt)
+            if ro is None:
+                prop = qr.ReducedDensityMatrixPropagator(axis, ho.real)
+            else:
+                prop = qr.ReducedDensityMatrixPropagator(axis, ho.real, RTensor=ro.real)
+            ev = prop.propagate(so.real)
+            got = numpy.array(ev.data)
+        except Exception as e:
+            raise Violation("propagate-raises", "op %d: propagation at depth %d: %s: %s" % (i, self.depth, type(e).__name__, e))
+        rho0 = so.X0["data"]
+        T, Ti = self.TTi(self.depth, N)
+        a = float(numpy.linalg.norm(Lm_, 2)) * dt
+        rr = a ** 5 / 120.0 * numpy.exp(a)
+        worst = 0.0
+        for k in range(nt):
+            ref = (scipy.linalg.expm(Lm_ * (k * dt)) @ rho0.reshape(-1)).reshape(N, N)
+            exp = Ti @ ref @ T
+            bound = 4.0 * N * k * rr * (1 + rr) ** k * max(1.0, float(numpy.max(numpy.abs(rho0)))) + 1e-10
+            d = float(numpy.max(numpy.abs(got[k] - exp)))
+            check(d <= bound, "propagated-dynamics-basis-independent",
+                  lambda: "op %d: propagation requested at depth %d, time index %d: differs from the dynamics computed outside any "
+                          "context by %g (truncation bound %g)" % (i, self.depth, k, d, bound))
+        # the evolution is an object created inside: it joins the pool and must come back with everything else
+        X0 = numpy.array([(scipy.linalg.expm(Lm_ * (k * dt)) @ rho0.reshape(-1)).reshape(N, N) for k in range(nt)])
+        if self.depth >= 1:
+            self.ctx.probe("propagation_inside_context")
+        # the stored evolution differs from the exact one by the truncation error: keep what the library returned as ground truth
+        n = self.add_obj("RDMEvolution", ev, {"data": tf("first3", got, Ti, T)}, N)
+        self.ctx.ev(i, "libprop", h, r if ro is not None else None, st, self.depth, fingerprint(numpy.round(got, 6)))
+        self.ctx.cov("libprop", None if ro is None else ro.cls, self.depth)
 
     def op_esoat(self, i, op):
         """EvolutionSuperOperator.at(t) hands out the superoperator of one time as a new managed object."""
